@@ -42,8 +42,8 @@ def gen_case(run_seed, tier):
     wl = stream(run_seed, "workload")
     ne, np_, nc = sz.randint(1, 3), sz.randint(0, 3), sz.randint(0, 2)
     length = sz.randint(5, 60 if tier == "thorough" else 40)
-    kinds = ["add", "ins", "rm", "rep", "unwrap", "group", "rmid", "reg", "badadd", "copyreg"]
-    w = {"add": 6, "ins": 6, "rm": 3, "rep": 2, "unwrap": 1, "group": 1, "rmid": 1, "reg": 0.5, "badadd": 0.4, "copyreg": 0.4}
+    kinds = ["add", "ins", "rm", "rep", "unwrap", "group", "rmid", "reg", "badadd", "copyreg", "badrep"]
+    w = {"add": 6, "ins": 6, "rm": 3, "rep": 2, "unwrap": 1, "group": 1, "rmid": 1, "reg": 0.5, "badadd": 0.4, "copyreg": 0.4, "badrep": 0.5}
     # swarm: zero some weights
     for k in kinds:
         if sz.random() < 0.15:
@@ -71,6 +71,8 @@ def gen_case(run_seed, tier):
             hist.append(["reg", wl.choice("epc")])
         elif k == "badadd":
             hist.append(["badadd", wl.choice("ep"), wl.randrange(3), wl.randrange(7)])
+        elif k == "badrep":
+            hist.append(["badrep", wl.randrange(1000), wl.randrange(3), wl.randrange(1000)])
         elif k == "copyreg":
             hist.append(["copyreg", wl.choice("epc"), wl.randrange(2)])
         else:
@@ -510,6 +512,46 @@ def run_case(case):
                 else:
                     ctx.violate("J6_register_gap_accepted", step, f"add of {spec} was accepted although register {t}{m.cnt[t]} does not exist", {"after": "badadd"})
                     break
+            elif k == "badrep":
+                # a replacement that acts on other registers than the node it replaces (indices exchanged between control
+                # and target, roles exchanged, or a neighbouring register): refused, or - if the library takes it - the
+                # circuit must still be one in which every wire visits exactly the operations acting on its register
+                nodes = m.nodes()
+                if not nodes:
+                    ctx.log(step, "badrep", "skipped")
+                    continue
+                n = nodes[st[1] % len(nodes)]
+                old = m.spec[n]
+                new = list(old)
+                if old[0] in ("g2", "cc"):
+                    if st[2] == 0:
+                        new[3], new[5] = old[5], old[3]  # indices exchanged, types kept
+                    elif st[2] == 1:
+                        new[2], new[3], new[4], new[5] = old[4], old[5], old[2], old[3]  # control and target exchanged
+                    else:
+                        new[5] = (old[5] + 1 + st[3] % 2) % max(1, m.cnt[old[4]])
+                elif old[0] in ("g1", "w"):
+                    new[3] = (old[3] + 1 + st[3] % 2) % max(1, m.cnt[old[2]])
+                else:
+                    new[2] = (old[2] + 1) % max(1, m.cnt[old[1]])
+                if new == list(old) or any(r >= m.cnt[t] for t, r in gq.qregs(new)) or len(set(gq.qregs(new))) != len(gq.qregs(new)):
+                    ctx.log(step, "badrep", "skipped")
+                    continue
+                ctx.fault("rejected_edit")
+                try:
+                    circ.replace_op(n, gq.make_op(new))
+                except core.HarnessError:
+                    raise
+                except Exception as e:
+                    ctx.probe("replace_on_other_registers_refused")
+                    ctx.log(step, "badrep", old, new, type(e).__name__)
+                else:
+                    if sorted(gq.qregs(new)) != sorted(gq.qregs(old)):
+                        ctx.violate("J6_replace_on_other_registers_accepted", step, f"replace_op put {new} in the place of {old}: the node now lies on the wires of registers it does not act on", {"after": "badrep"})
+                        break
+                    m.spec[n] = new
+                    ctx.probe("replace_with_exchanged_roles_accepted")
+                    ctx.log(step, "badrep", old, new, "accepted")
             elif k == "copyreg":
                 # edit a copy (register-adding edit on the copy): the original must not notice
                 t = st[1]
